@@ -168,16 +168,13 @@ Definition pdb_read_cols (cols : list ascii) : option (list num) :=
   map_opt parse_num (slices pdb_w 3 cols).
 
 (* ------------------------------------------------------------------ mdcrd.py *)
-Fixpoint chunks_aux {A} (n : nat) (l : list A) (cur : list A) (k : nat) : list (list A) :=
-  match l with
-  | [] => match cur with [] => [] | _ => [rev cur] end
-  | a :: r => match k with
-              | S O => rev (a :: cur) :: chunks_aux n r [] n
-              | S k' => chunks_aux n r (a :: cur) k'
-              | O => chunks_aux n r (a :: cur) O     (* n = 0: never happens *)
-              end
+(* consecutive groups of n elements (the last one may be shorter) *)
+Fixpoint chunks_fuel {A} (fuel n : nat) (l : list A) : list (list A) :=
+  match fuel with
+  | O => []
+  | S f => match l with [] => [] | _ => firstn n l :: chunks_fuel f n (skipn n l) end
   end.
-Definition chunks {A} (n : nat) (l : list A) : list (list A) := chunks_aux n l [] n.
+Definition chunks {A} (n : nat) (l : list A) : list (list A) := chunks_fuel (length l) n l.
 
 Definition line := list ascii.
 
